@@ -46,23 +46,19 @@ SIG_D2 = "legacy:non-task-tuple-with-reference-or-call:evaluated-elementwise"
 SIG_D12 = "legacy:dict-value-and-non-task-tuple:both-divergences"
 
 
-def _classify(dsk, key, real):
-    """Which of the two known divergences from the statement's semantics explains `real`? None if neither."""
+def _outcome(fn):
     try:
-        if ref_eval(dsk, key, False, False) == real:
-            return SIG_D1
+        return [Sym("ok"), to_sexp(fn())]
     except Exception:
-        pass
-    try:
-        if ref_eval(dsk, key, True, True) == real:
-            return SIG_D2
-    except Exception:
-        pass
-    try:
-        if ref_eval(dsk, key, False, True) == real:
-            return SIG_D12
-    except Exception:
-        pass
+        return [Sym("raised")]
+
+
+def _classify(dsk, key, impl_v):
+    """Which of the two known divergences from the statement's semantics explains the real outcome `impl_v`
+    (a value or a raise, e.g. a cycle that exists only under one traversal)?  None if neither does."""
+    for flags, sig in (((False, False), SIG_D1), ((True, True), SIG_D2), ((False, True), SIG_D12)):
+        if _outcome(lambda: ref_eval(dsk, key, *flags)) == impl_v:
+            return sig
     return None
 
 
@@ -90,7 +86,13 @@ def case_legacy(ctx, inp):
         kinds.add(type(n).__name__)
     for kd in kinds:
         ctx.branch("node-" + kd)
-    # (2) values
+    # (2) values.  A graph is compared against the statement only if it has a meaning at all: every key must
+    # evaluate under the statement's traversal and under the code's (no cycle through either); otherwise only the
+    # model/implementation diff is made.
+    wellformed = all(_outcome(lambda k=build(kj), f=f: ref_eval(dsk, k, *f))[0] == "ok"
+                     for kj, _ in items for f in ((True, False), (False, True)))
+    if not wellformed:
+        ctx.branch("ill-formed-cyclic")
     for (kj, _), ks in zip(items, keys_s):
         k = build(kj)
         try:
@@ -109,16 +111,13 @@ def case_legacy(ctx, inp):
         except Raised:
             want_s = [Sym("raised")]
         ctx.eq("statement semantics: Lean evalKeyL vs Python reference", ml, want_s)
-        if impl_v != want_s:
-            if impl_v[0] == "raised":
-                ctx.fail("dask.core.get raised on a well-formed legacy graph: " + exc, observed=exc, expected=want_s)
-            elif want_s[0] == "raised":
-                ctx.fail("reference raised but dask.core.get returned", observed=impl_v)
-            else:
-                sig = _classify(dsk, k, real)
-                ctx.fail("dask.core.get differs from the legacy semantics of the statement", sig=sig,
-                         observed=impl_v, expected=want_s)
-                ctx.branch("diverges-" + (sig or "unexplained"))
+        if wellformed and impl_v != want_s:
+            sig = _classify(dsk, k, impl_v)
+            what = ("dask.core.get raised (" + exc + ") although the legacy semantics gives a value" if impl_v[0] == "raised"
+                    else "dask.core.get returned although the legacy semantics raises (cycle)" if want_s[0] == "raised"
+                    else "dask.core.get differs from the legacy semantics of the statement")
+            ctx.fail(what, sig=sig, observed=impl_v, expected=want_s)
+            ctx.branch("diverges-" + (sig or "unexplained"))
         else:
             ctx.branch("value-agrees")
     # (3) dependencies: converted node vs model vs the keys it references (code's traversal) vs get_dependencies
